@@ -70,7 +70,7 @@ func w18sites() []w18site {
 		{"protocol/xrespondent", "socket", "RecvMsg", xrespondent.NewProtocol, append(append([]byte{}, w18rid...), 'x'), noh, "recv", false, false, mangos.OptionReadQLen, false},
 		{"protocol/xrespondent", "socket", "SendMsg", xrespondent.NewProtocol, nil, routed, "send-pipe", true, false, "", true},
 		{"protocol/xbus", "socket", "RecvMsg", xbus.NewProtocol, []byte("hello"), noh, "recv", false, false, mangos.OptionReadQLen, false},
-		{"protocol/xstar", "socket", "RecvMsg", xstar.NewProtocol, []byte{0, 0, 0, 0, 'x'}, noh, "recv", false, false, "", false},
+		{"protocol/xstar", "socket", "RecvMsg", xstar.NewProtocol, []byte{0, 0, 0, 0, 'x'}, noh, "recv", false, false, mangos.OptionReadQLen, false},
 		{"protocol/rep", "context", "RecvMsg", rep.NewProtocol, append(append([]byte{}, w18rid...), 'x'), noh, "recv", false, false, "", false},
 		{"protocol/rep", "context", "SendMsg", rep.NewProtocol, append(append([]byte{}, w18rid...), 'x'), noh, "send-ctx", true, false, "", false},
 		{"protocol/sub", "context", "RecvMsg", sub.NewProtocol, []byte("hello"), noh, "recv", false, false, mangos.OptionReadQLen, false},
